@@ -123,7 +123,7 @@ func Fill(rng *rand.Rand, n int, class Content, textSafe bool) []byte {
 		}
 	case ContentCompressible:
 		if rng.Intn(2) == 0 { // one long run
-			ch := byte('a' + rng.Intn(26))
+			ch := byte('g' + rng.Intn(20)) // never a hex digit: a run of them behind a length byte 'T' would look like a request token
 			if !textSafe && rng.Intn(2) == 0 {
 				ch = 0
 			}
